@@ -54,6 +54,8 @@ type c18Case struct {
 	// called); "close" = the host calls ClientProtocol.Close() itself (the plugin is asked to shut down and
 	// exits gracefully), waits until Client.Exited() reports the exit, and only then calls Kill
 	pre string
+	// lns > 0: before Kill, each side opens that many brokered listeners (broker.Accept) and leaves them open and unserved
+	lns int
 }
 
 func (c *c18Case) line() string {
@@ -64,6 +66,9 @@ func (c *c18Case) line() string {
 	s := fmt.Sprintf("C18 proto=%s mux=%s auto=%s launch=%s procs=%d ops=%s", c.proto, b01(c.mux), b01(c.auto), c.launch, c.procs, ops)
 	if c.pre != "" {
 		s += " pre=" + c.pre
+	}
+	if c.lns > 0 {
+		s += fmt.Sprintf(" lns=%d", c.lns)
 	}
 	return s
 }
@@ -80,6 +85,7 @@ func (c *c18Case) cfgName() string {
 func c18FromLine(m map[string]string) (*c18Case, error) {
 	c := &c18Case{proto: m["proto"], mux: m["mux"] == "1", auto: m["auto"] == "1", launch: m["launch"], ops: splitComma(m["ops"])}
 	fmt.Sscanf(m["procs"], "%d", &c.procs)
+	fmt.Sscanf(m["lns"], "%d", &c.lns)
 	if c.pre = m["pre"]; c.pre != "" && c.pre != "close" {
 		return nil, errors.New("bad pre")
 	}
@@ -436,6 +442,19 @@ func c18Session(c *c18Case) (impl, pred string, notes []string) {
 				}
 			}
 		}
+		if c.lns > 0 {
+			stage = "open-listeners"
+			if kit == nil {
+				if err := dispense(); err != nil {
+					return err
+				}
+			}
+			if l, ok := kit.(interface{ Listeners(n int) error }); ok {
+				if err := l.Listeners(c.lns); err != nil {
+					return err
+				}
+			}
+		}
 		if c.pre == "close" {
 			// the host is done with the plugin before it gets round to Kill: it closes the protocol client
 			// (which asks the plugin to shut down) and sees the plugin exit
@@ -614,6 +633,18 @@ func c18Generate(r *rng) []*c18Case {
 			c := cf
 			c.pre = "close"
 			add(c, []string{"d", "c", "e"}, 0)
+		}
+	}
+	// several brokered listeners still open (accepted, never served) on both sides when Kill comes
+	for _, cf := range cfgs {
+		if cf.proto == "grpc" && !cf.auto {
+			c := cf
+			c.lns = 3
+			add(c, []string{"d"}, 0)
+			if !cf.mux && cf.launch == "cmd" {
+				c.pre = "close"
+				add(c, []string{"d", "c"}, 0)
+			}
 		}
 	}
 	n := 14
